@@ -321,7 +321,7 @@ def store_cases(ctx):
         for k, args in ((0, False), (1, True), (12, False)):
             cases.append({"cap": 64, "args": args, "mode": "kill", "ops": [("E", k, 1010, 5, 6)], "sync": [False], "e": e,
                           "end": None, "close": None, "directed": "first-hook-call"})
-    for _ in range(ctx.n(70, 1200)):
+    for _ in range(ctx.n(55, 1200)):
         cases.append(gen_case(rng))
     return cases
 
@@ -668,7 +668,8 @@ def live_verdict(ctx, hists, res):
 
 # ------------------------------------------------------------------ (C) end to end
 MAXEV = 4096
-HOWS = {"sigkill": 0, "segv": 1, "abort": 2, "_exit": 3, "execv": 4, "exit": 5, "sigusr1": 6, "none": 9}
+HOWS = {"sigkill": 0, "segv": 1, "abort": 2, "_exit": 3, "execv": 4, "exit": 5, "sigusr1": 6, "sigterm": 7, "sigfpe": 8,
+        "none": 9, "exec_fail": 10, "fork": 11, "fork_parent_killed": 12, "fork_child_killed": 13, "loop": 14}
 
 PROG_HEAD = r"""
 #define _GNU_SOURCE
@@ -688,6 +689,7 @@ struct tlog { volatile unsigned tid; volatile unsigned n; volatile unsigned ev[M
 static struct tlog *L;
 static __thread struct tlog *my;
 static int kill_th = -1, kill_at = -1, how = 9;
+static volatile int quiet;
 static char *self_argv[6];
 NOI static void die(void)
 {
@@ -699,13 +701,27 @@ NOI static void die(void)
 	case 4: execv(self_argv[0], self_argv); break;        /* the same traced program, in the same task */
 	case 5: exit(4); break;
 	case 6: raise(SIGUSR1); break;                       /* --signal SIGUSR1@finish: the program goes on */
+	case 7: kill(getpid(), SIGTERM); break;
+	case 8: raise(SIGFPE); break;
+	case 10: { char *a[] = { "/nonexistent/c04-prog", 0 }; execv(a[0], a); } break;   /* fails: the program goes on */
+	case 11: case 12: case 13: {
+		pid_t p = fork();
+		kill_th = -1;                                /* once */
+		if (p == 0) {                                /* the child goes on in its own log slot */
+			my = &L[NTH + 1]; my->n = 0; my->tid = syscall(SYS_gettid);
+			if (how == 13) kill(getpid(), SIGKILL);
+		}
+		else if (p > 0 && how == 12)
+			kill(getpid(), SIGKILL);
+		break;
+	}
 	}
 }
 NOI static void LOG(int x, int k)
 {
 	struct tlog *t = my;
 	unsigned n;
-	if (!t) return;
+	if (!t || quiet) return;
 	n = t->n;
 	if (n >= MAXEV) return;
 	t->ev[n] = x * 256 + k;
@@ -720,7 +736,7 @@ static void *worker(void *arg)
 {
 	long i = (long)arg;
 	attach(i);
-	root(i);
+	do { root(i); if (how == 14) usleep(100); } while (how == 14);
 	return 0;
 }
 int main(int argc, char **argv)
@@ -728,8 +744,8 @@ int main(int argc, char **argv)
 	pthread_t th[NTH + 1];
 	long i;
 	int fd = open(argv[1], O_RDWR | O_CREAT | O_TRUNC, 0600);
-	if (fd < 0 || ftruncate(fd, sizeof(struct tlog) * (NTH + 1)) < 0) return 9;
-	L = mmap(0, sizeof(struct tlog) * (NTH + 1), PROT_READ | PROT_WRITE, MAP_SHARED, fd, 0);
+	if (fd < 0 || ftruncate(fd, sizeof(struct tlog) * (NTH + 2)) < 0) return 9;
+	L = mmap(0, sizeof(struct tlog) * (NTH + 2), PROT_READ | PROT_WRITE, MAP_SHARED, fd, 0);
 	kill_th = atoi(argv[2]); kill_at = atoi(argv[3]); how = atoi(argv[4]);
 	if (argc >= 9) {	/* second stage after execv: <log2> <th2> <at2> <how2> */
 		self_argv[0] = argv[0]; self_argv[1] = argv[5]; self_argv[2] = argv[6];
@@ -739,8 +755,9 @@ int main(int argc, char **argv)
 		self_argv[0] = "/bin/true"; self_argv[1] = 0;
 	}
 	attach(0);
+	if (how == 14) quiet = 1;                            /* run until killed from outside; nothing is logged */
 	for (i = 1; i <= NTH; i++) pthread_create(&th[i], 0, worker, (void *)i);
-	root(0);
+	do { root(0); if (how == 14) usleep(100); } while (how == 14);
 	for (i = 1; i <= NTH; i++) pthread_join(th[i], 0);
 	root(0);
 	return 0;
@@ -783,7 +800,9 @@ def read_log(path, nth):
     b = open(path, "rb").read()
     sz = 8 + 4 * MAXEV
     logs = []
-    for i in range(nth + 1):
+    for i in range(nth + 2):
+        if (i + 1) * sz > len(b):
+            break
         tid, n = struct.unpack_from("<II", b, i * sz)
         evs = struct.unpack_from("<%dI" % min(n, MAXEV), b, i * sz + 8)
         logs.append((tid, [(e >> 8, e & 255) for e in evs]))
@@ -829,8 +848,11 @@ def e2e_run(uft, objdir, prog, work, idx, case):
     if st2:
         cmd += [logf + "2", str(st2["th"]), str(st2["at"]), str(HOWS[st2["how"]])]
     t0 = time.time()
-    p = subprocess.run(cmd, capture_output=True, text=True, cwd=d)
-    ob = {"rc": p.returncode, "wall": time.time() - t0, "stderr": p.stderr[-300:]}
+    if case.get("async_kill") is not None:
+        p = async_kill_run(cmd, d, os.path.basename(prog["exe"]), case["async_kill"])
+    else:
+        p = subprocess.run(cmd, capture_output=True, text=True, cwd=d)
+    ob = {"rc": p.returncode, "wall": time.time() - t0, "stderr": (p.stderr or "")[-300:]}
     if p.returncode in (124, 137, -9):
         ob["timeout"] = True
         E2E_TIMEOUTS.append(idx)
@@ -844,22 +866,112 @@ def e2e_run(uft, objdir, prog, work, idx, case):
     for tid, _ in ob["logs"] + ob["logs2"]:
         f = os.path.join(data, "%d.dat" % tid)
         ob["dat"][tid] = open(f, "rb").read() if (tid and os.path.exists(f)) else b""
+    for f in ob["files"]:                  # data files of tasks the program did not log (none expected)
+        m = re.fullmatch(r"(\d+)\.dat", f)
+        if m and int(m.group(1)) not in ob["dat"]:
+            ob["dat"][int(m.group(1))] = open(os.path.join(data, f), "rb").read()
     ob["analysis"] = {}
     for c in (["replay"], ["report"], ["dump"]):
         rc, out, err = sh(["timeout", "60", uft] + c + ["--no-pager", "-d", data], timeout=70)
         ob["analysis"][c[0]] = (rc, (err or "")[-200:])
+        if c[0] == "dump" and rc == 0:
+            ob["dump"] = parse_dump(out)
+    ob["info_tids"], ob["task_tids"], ob["nsess"] = read_task_lists(data)
     ob["shm_left"] = clean_shm(data)
     shutil.rmtree(d, ignore_errors=True)
     return ob
 
 
-def coq_ecase(ftab, nt, maxd, log1, log2, dat, crash1, crash2, nest):
+def async_kill_run(cmd, d, exe_name, delay_ms):
+    """start `uftrace record`, wait for the tracee to run its own image, SIGKILL it from outside after delay_ms"""
+    p = subprocess.Popen(cmd, stdout=subprocess.PIPE, stderr=subprocess.PIPE, text=True, cwd=d)
+    # cmd[0..2] = timeout -s KILL 20: the recorder is timeout's child, the tracee the recorder's
+    victim, t0 = None, time.time()
+    while victim is None and time.time() - t0 < 10 and p.poll() is None:
+        try:
+            kids = open("/proc/%d/task/%d/children" % (p.pid, p.pid)).read().split()
+            for k in kids:
+                for g in open("/proc/%s/task/%s/children" % (k, k)).read().split():
+                    if open("/proc/%s/comm" % g).read().strip() == exe_name[:15]:
+                        victim = int(g)
+        except OSError:
+            pass
+        if victim is None:
+            time.sleep(0.002)
+    # in scope is a kill at or after the first traced event: wait until the recorder has seen the session
+    # (a tracee that dies before libmcount finished starting up leaves no maps / task list: `record` then ends
+    # with "cannot find map files" - before the first traced event, outside the property's quantifier)
+    data = cmd[cmd.index("-d") + 1]
+    t1 = time.time()
+    while victim is not None and time.time() - t1 < 5 and p.poll() is None:
+        try:
+            if os.path.getsize(os.path.join(data, "task.txt")) > 0:
+                break
+        except OSError:
+            pass
+        time.sleep(0.0005)
+    if victim is not None:
+        time.sleep(delay_ms / 1000.0)
+        try:
+            os.kill(victim, 9)
+        except OSError:
+            pass
+    try:
+        out, err = p.communicate(timeout=40)
+    except subprocess.TimeoutExpired:
+        p.kill()
+        out, err = p.communicate()
+    p.stdout_text, p.stderr = out, err
+    return p
+
+
+def parse_dump(out):
+    """`uftrace dump` text -> {tid: [(0 entry | 1 exit, addr, depth), ...]}"""
+    res = {}
+    for l in out.splitlines():
+        m = re.match(r"\s*[\d.]+\s+(\d+): \[(entry|exit )\] .*\(([0-9a-f]+)\) depth: (\d+)", l)
+        if m:
+            res.setdefault(int(m.group(1)), []).append((0 if m.group(2) == "entry" else 1, int(m.group(3), 16), int(m.group(4))))
+    return res
+
+
+def read_task_lists(data):
+    info_tids, task_tids, nsess = set(), set(), 0
+    try:
+        for l in open(os.path.join(data, "info"), "rb").read().split(b"\n"):
+            if l.startswith(b"taskinfo:tids="):
+                info_tids = set(int(x) for x in l[14:].decode().split(",") if x.strip())
+        for l in open(os.path.join(data, "task.txt")).read().splitlines():
+            if l.startswith("SESS"):
+                nsess += 1
+            m = re.match(r"TASK .* tid=(\d+) ", l + " ")
+            if m:
+                task_tids.add(int(m.group(1)))
+            m = re.match(r"FORK .* pid=(\d+) ", l + " ")
+            if m:
+                task_tids.add(int(m.group(1)))
+    except OSError:
+        pass
+    return info_tids, task_tids, nsess
+
+
+def decode_py(dat):
+    """ENTRY/EXIT records of a data file as the dump shows them: (type, addr, depth)"""
+    out = []
+    for off in range(0, len(dat) - 15, 16):
+        t, w = struct.unpack_from("<QQ", dat, off)
+        if (w & 3) in (0, 1):
+            out.append((w & 3, w >> 16, (w >> 6) & 0x3ff))
+    return out
+
+
+def coq_ecase(ftab, nt, maxd, log1, log2, dat, crash1, crash2, nest, free=False):
     def evs(l):
         return "[" + "; ".join("(%d, %d)" % e for e in l) + "]%N"
     return ("{| e_ftab := [%s]%%N; e_nt := %s; e_maxd := %d; e_log1 := %s; e_log2 := %s; e_bytes := %s; "
-            "e_crash1 := %s; e_crash2 := %s; e_nest := %s |}" % (
+            "e_crash1 := %s; e_crash2 := %s; e_nest := %s; e_free := %s |}" % (
                 "; ".join("(%d, %d)" % t for t in ftab), coq_bytes(nt), maxd, evs(log1), evs(log2),
-                coq_bytes(dat), coq.coq_bool(crash1), coq.coq_bool(crash2), coq.coq_bool(nest)))
+                coq_bytes(dat), coq.coq_bool(crash1), coq.coq_bool(crash2), coq.coq_bool(nest), coq.coq_bool(free)))
 
 
 def run_e2e(ctx, objdir):
@@ -882,12 +994,13 @@ def run_e2e(ctx, objdir):
             sh(["timeout", "20", exe, full, "-1", "-1", "9"], check=True, cwd=work)      # (-pg: gmon.out goes to cwd)
             logs = read_log(full, nth)
             most = max(len(l) for _, l in logs)
-            if (350 <= most <= 700) if big else (6 <= most <= 300):
+            if (300 <= most <= 480) if big else (6 <= most <= 250):
                 break
         progs.append({"exe": exe, "nth": nth, "nf": nf, "ftab": func_table(exe, nf), "full": logs,
                       "src": src, "id": pi, "big": big})
     cases = []
-    hows = ["sigkill", "segv", "abort", "_exit", "execv", "exit", "finish", "sigfinish"]
+    hows = ["sigkill", "segv", "abort", "_exit", "execv", "exit", "finish", "sigfinish",
+            "sigterm", "sigfpe", "exec_untraced", "exec_fail", "fork", "fork_parent_killed", "fork_child_killed", "async_kill"]
     per = ctx.n(16, 48)
     for pr in progs:
         for j in range(per):
@@ -927,6 +1040,15 @@ def run_e2e(ctx, objdir):
             if how == "sigfinish":
                 # signal trigger: the handler only sets the finish flag; every thread stops recording at its next hook
                 case.update({"how": "sigusr1", "sigfinish": True, "opts": opts + ["--signal", "SIGUSR1@finish"]})
+            if how == "exec_untraced":
+                case.update({"how": "execv", "kind": "exec_untraced", "th": 0,
+                             "at": rng.randrange(max(1, len(pr["full"][0][1])))})      # no stage 2: /bin/true
+            if how in ("fork", "fork_parent_killed", "fork_child_killed"):
+                case.update({"kind": how, "th": 0, "at": rng.randrange(max(1, len(pr["full"][0][1])))})
+            if how == "async_kill":
+                # SIGKILL from outside at an arbitrary instant (not at a traced event) while every thread loops
+                case.update({"how": "loop", "kind": "async_kill", "th": -1, "at": -1,
+                             "async_kill": rng.choice([0, 1, 2, 3]), "opts": rng.choice([[], ["-b", "4k"], ["-b", "4k"]])})
             cases.append(case)
     t0 = time.time()
     with concurrent.futures.ThreadPoolExecutor(max_workers=6) as ex:
@@ -946,7 +1068,7 @@ def e2e_judge(ctx, progs, cases, obs):
     for ci, (case, ob) in enumerate(zip(cases, obs)):
         pr = progs[case["prog"]]
         rj = {"line": "e2e", "case": case, "program": pr["src"]}
-        how = "finish" if "finish" in case else "sigfinish" if case.get("sigfinish") else case["how"]
+        how = "finish" if "finish" in case else "sigfinish" if case.get("sigfinish") else case.get("kind") or case["how"]
         tags = ["e2e:how=" + how, "e2e:threads=%d" % (pr["nth"] + 1)] + ["e2e:opt=" + o for o in case["opts"] if o.startswith("-") and o not in ("-T", "--signal")]
         if ob.get("skipped"):
             continue
@@ -980,20 +1102,42 @@ def e2e_judge(ctx, progs, cases, obs):
         per_tid = {}
         for ti, (tid, log) in enumerate(ob["logs"]):
             if tid:
-                per_tid.setdefault(tid, {"l1": [], "l2": [], "ti": ti, "c1": False, "c2": False})
+                per_tid.setdefault(tid, {"l1": [], "l2": [], "ti": ti, "c1": False, "c2": False, "free": False})
                 per_tid[tid]["l1"] = pr["full"][ti][1] if how in ("finish", "sigfinish") else log
                 per_tid[tid]["c1"] = how in ("segv", "abort") and ti == case["th"]
+                if how == "async_kill":
+                    # every thread repeats its root() for ever: the reference is that sequence, repeated
+                    one = pr["full"][ti][1]
+                    if ti == 0:
+                        one = one[:len(one) // 2]          # (the dry run's main thread ran root(0) twice)
+                    need = len(ob["dat"].get(tid, b"")) // 16 + 1
+                    per_tid[tid]["l1"] = one * (need // max(1, len(one)) + 1) if one else []
+                if ti == pr["nth"] + 1:
+                    per_tid[tid]["free"] = True            # the forked child starts with inherited open calls
         for ti, (tid, log) in enumerate(ob.get("logs2", [])):
             if tid:
-                per_tid.setdefault(tid, {"l1": [], "l2": [], "ti": ti, "c1": False, "c2": False})
+                per_tid.setdefault(tid, {"l1": [], "l2": [], "ti": ti, "c1": False, "c2": False, "free": False})
                 per_tid[tid]["l2"] = log
                 per_tid[tid]["c2"] = st2["how"] in ("segv", "abort") and ti == st2["th"]
         for tid, pt in sorted(per_tid.items()):
             dat = ob["dat"].get(tid, b"")
             nrec += len(dat) // 16
             ecases.append(coq_ecase(pr["ftab"], case.get("nt", []), case.get("maxd", 1 << 20), pt["l1"], pt["l2"], dat,
-                                    pt["c1"], pt["c2"], how != "execv"))
+                                    pt["c1"], pt["c2"], how not in ("execv", "exec_untraced") and not pt["free"], pt["free"]))
             owner.append((ci, pt["ti"], tid))
+        # the task list and the readers' view of every data file
+        for tid, dat in sorted(ob["dat"].items()):
+            if not dat:
+                continue
+            if tid not in ob.get("info_tids", ()) or tid not in ob.get("task_tids", ()):
+                viol("tasklist", "C04 violated: task list incomplete after the tracee %s: %d.dat exists but tid %d is missing in %s"
+                     % (how, tid, tid, "info (taskinfo:tids)" if tid not in ob.get("info_tids", ()) else "task.txt"),
+                     dict(rj, info_tids=sorted(ob.get("info_tids", ())), task_tids=sorted(ob.get("task_tids", ()))))
+            if "dump" in ob and ob["dump"].get(tid, []) != decode_py(dat):
+                viol("dump", "C04 violated: `uftrace dump` does not show the records of %d.dat as they are in the file "
+                     "(%d shown, %d in the file) after the tracee %s" % (tid, len(ob["dump"].get(tid, [])), len(decode_py(dat)), how), rj)
+        if any(tid not in per_tid for tid, dat in ob["dat"].items() if dat):
+            tags.append("e2e:data-file-of-unlogged-task")
         if st2:
             tags.append("e2e:exec-self,second-image-" + st2["how"])
             if any(pt["l1"] and pt["l2"] for pt in per_tid.values()):
@@ -1017,7 +1161,7 @@ def e2e_judge(ctx, progs, cases, obs):
     for i in coq.parse_nat_list(res["violations"])[:3]:
         ci, ti, tid = owner[i]
         case, ob = cases[ci], obs[ci]
-        how = "finish" if "finish" in case else "sigfinish" if case.get("sigfinish") else case["how"]
+        how = "finish" if "finish" in case else "sigfinish" if case.get("sigfinish") else case.get("kind") or case["how"]
         ctx.violation("C04 violated (end to end): %d.dat (thread %d) left after the tracee %s is not made of whole records "
                       "forming a prefix of what the thread executed%s" % (
                           tid, ti, how, " / misses open calls of the crashing thread" if how in ("segv", "abort") else ""),
